@@ -348,7 +348,7 @@ class CopyAnalysis:
 
     def final_how(self, info: ClassInfo, field: str, arg: str, wrap: str, label: str) -> str:
         kind = kind_of(info.name, field, info.ann.get(field))
-        if arg == 'ctx':
+        if arg == 'ctx' or (kind == 'KCtx' and arg in ('share', 'param')):
             return 'HCtx'
         if arg == 'param':
             if wrap == 'newid' or kind in ('KId', 'KCtx'):
